@@ -3,6 +3,8 @@ have been observed for a 'held' verdict, and how the evidence is written."""
 from vdriver import Job, NCPU
 
 ENGINES = {
+    'h_router': dict(tulz=['router'], setup_variants=['asan'],
+                     kind='routing-tree model in lock-step with SubjectRouter / ConcurrentSubjectRouter, stored keys measured through exists(), ASan/UBSan'),
     'h_subject': dict(tulz=['none'], setup_variants=['asan'],
                       kind='online co-simulation of Subject rounds (model predicts every invocation), scripted callbacks, ASan/UBSan/LSan'),
     'h_array': dict(tulz=['none'], setup_variants=['asan'],
@@ -266,3 +268,45 @@ SPECS['C10'] = dict(
     manifest=dict(engine='h_subject', text='The same co-simulation with scripted callbacks that mutate the Subject mid-round (including self-unsubscribe and nested notify); ASan decides memory safety, '
                   'the model decides skipped / deferred / continued delivery, tokens decide destruction.',
                   note=SAN_NOTE, technique='runtime monitoring: online co-simulation with scripted re-entrant callbacks under ASan'))
+
+
+# ----------------------------------------------------------------------------- SubjectRouter (C06 C13)
+
+def router_evidence(rule):
+    def f(agg, samples, distinct, tier):
+        return cov(agg.get('histories', 0), distinct, rule, samples,
+                   observed=pick(agg, 'histories', 'ops', 'notifies', 'wildcardNotifies', 'multiReceiverNotifies', 'byValueMultiReceiver', 'calls', 'shrinks',
+                                 'removedKeys', 'measures', 'existsProbes', 'probesAfterShrink', 'fullShrinks', 'lazyRemovals', 'nontrivialCases', 'universeKeys'),
+                   operations=agg.get('opCount', {}), signatures_by_depth=agg.get('signatures', {}), routers=agg.get('routers', {}))
+    return f
+
+
+ROUTER_ASSUME = ['signature discipline: the argument signature is a function of the key depth, so every key a pattern can reach has the signature the notify uses (anything else is undefined by the library documentation)',
+                 'UBSan vptr check disabled: the router stores and destroys every Subject<Args...> as Subject<> by design',
+                 'order of delivery across different keys is not judged (the property does not fix it)']
+
+SPECS['C06'] = dict(
+    title='SubjectRouter reaches exactly the matching observers',
+    jobs=model_jobs('h_router', 'C06', (8000, 400000)),
+    require={'any': {'histories': 2000, 'wildcardNotifies': 20000, 'multiReceiverNotifies': 5000, 'byValueMultiReceiver': 1000}},
+    evidence=router_evidence('case = seeded history (2-70 steps) of subscribe / unsubscribe / mute / invalidate / shrink / notify on SubjectRouter or ConcurrentSubjectRouter (one thread) over a colliding name '
+                             'alphabet {a, ab, a.b, a+, b, ""} at depth 1-3, patterns with concrete, wildcard and regex levels (including regexes matching several siblings, nothing, the empty name, and '
+                             'regex-looking plain strings); one of six signatures per depth. Receivers, invocation counts, received argument values for every receiver and the return value are compared with an '
+                             'independent level-by-level match over the model. non-trivial = a notify that reached >=2 observers or a shrink; distinct = distinct histories'),
+    assumptions=ROUTER_ASSUME,
+    manifest=dict(engine='h_router', text='Lock-step routing-tree model with independently recomputed matching; every receiver checks the argument values it got (by-value payloads show if they were consumed), '
+                  'for both router classes, under ASan/UBSan.', note=SAN_NOTE, technique='runtime monitoring: lock-step reference model of the routing tree under ASan/UBSan'))
+
+SPECS['C13'] = dict(
+    title='shrink is invisible to delivery; exists/depth consistent',
+    jobs=model_jobs('h_router', 'C13', (6000, 300000)),
+    require={'any': {'histories': 2000, 'shrinks': 10000, 'removedKeys': 3000, 'fullShrinks': 2000, 'existsProbes': 50000, 'probesAfterShrink': 30000}},
+    evidence=router_evidence('C06 generator weighted towards unsubscribe / invalidate / shrink (concrete, regex, wildcard patterns of depth 1-4) / re-subscribe. After every operation the stored-key set is measured '
+                             'with exists() on all 258 concrete keys of the universe: prefix-closed; grows only by the prefixes of a subscribed key; shrinks only in shrink, and then only by dead keys whose parent '
+                             'lies along the pattern; keys at or above a held subscription stay; a full-depth wildcard shrink leaves no dead key; exists(pattern) == some stored key matches level by level; '
+                             'depth() == 1 + longest stored key; a fixed probe set of notifies after each shrink reaches exactly the model receivers. non-trivial = history with a shrink; distinct = distinct histories'),
+    assumptions=ROUTER_ASSUME + ['which dead siblings under a visited node a shrink drops is not prescribed: any dead key whose parent lies along the pattern may go',
+                                 'a key whose only subscriptions are invalidated but not yet lazily removed may stay'],
+    manifest=dict(engine='h_router', text='Black-box structural oracle: the stored-key set is measured through exists() over the whole finite key universe after every operation and checked against '
+                  'self-consistency rules and the subscription model; deliveries after every shrink are checked against the unchanged model.',
+                  note=SAN_NOTE, technique='runtime monitoring: measured-state invariants + reference model under ASan/UBSan'))
